@@ -51,4 +51,20 @@ for (name, m), n in itertools.product(list(masks())[:2], range(1, 9)):
     c = rng.normal(size=n)
     ref = sum(ck * lentil.zernike(m, k + 1) for k, ck in enumerate(c))
     b.check(np.allclose(lentil.zernike_compose(m, c), ref), {'mask': name, 'n': n})
-emit([a, b])
+
+c = Bounded('C12::fit_depends_on_the_mask_given', 'pairs of masks with the same array shape and the same number of pixels (shifted disks, shifted hexagons), fitted one after the other with the same modes',
+            'zernike_fit / zernike_remove use the mask they are given: results do not depend on earlier calls')
+for kind, modes, normalize in itertools.product(('disk', 'hexagon'), ([2, 3, 4], [4, 11]), (True, False)):
+    with c.case({'masks': kind, 'modes': modes, 'normalize': normalize}):
+        mk = (lambda sh: lentil.circle((40, 44), 11, shift=sh, antialias=False)) if kind == 'disk' else (lambda sh: lentil.hexagon((40, 44), 12, shift=sh, antialias=False))
+        m1, m2 = mk((0, 0)), mk((5, -7))
+        ok = m1.shape == m2.shape and np.count_nonzero(m1) == np.count_nonzero(m2)
+        for m in (m1, m2, m1):
+            coef = rng.normal(size=len(modes))
+            opd = sum(ck * lentil.zernike(m, j, normalize=normalize) for ck, j in zip(coef, modes))
+            got = lentil.zernike_fit(opd, m, modes, normalize=normalize)
+            ok = ok and np.allclose(got, coef, atol=1e-9)
+            if normalize:
+                ok = ok and np.allclose(lentil.zernike_remove(opd, m, modes), 0, atol=1e-9)
+        c.check(bool(ok), {'masks': kind, 'modes': modes, 'normalize': normalize})
+emit([a, b, c])
